@@ -15,7 +15,7 @@ SPEC = dict(
                 "deadline, then 8 rounds of later-scheduled 0-delay probe timers that must fire on the same service; must "
                 "reproduce 3/3). Lateness is never judged."),
     technique="property-based testing (rapidcheck plans executed by a thread/clock plan executor, trace oracles, ASan+UBSan)",
-    rule=("svc: TimerService or TimerServicePool(1-3); up to 28 rows -> ops on 1-4 threads: scheduleAfter/scheduleAt (delays -1 h, "
+    rule=("svc: TimerService or TimerServicePool(1-4; services obtained through getService, getLeastLoadedService or both) with every TimerServiceConfig field generated (statistics, detailed logging, throwOnSystemError, thread priority/name, maxEpollEvents, epollTimeout, heap capacity, limits, custom logger); up to 28 rows -> ops on 1-4 threads: scheduleAfter/scheduleAt (delays -1 h, "
           "-5 ms, 0, 1-30.5 ms, +1 h; exactly equal deadlines), schedulePeriodic(2-10 ms), cancel now / within +-1 ms of the "
           "deadline / from handlers / self-cancel at the k-th periodic firing, handler behaviours (instant, sleep 1-30 ms, "
           "schedule-from-handler, cancel-from-handler, throw), co-due shape (slow handler + victim due at the same instant, "
